@@ -21,6 +21,7 @@ from vf.lib import c12_formats as F
 from coba.context import CobaContext, NullLogger, MemoryCacher
 from coba.pipes.sources import HttpSource, DiskSource
 from coba.pipes.sinks import DiskSink
+from coba.environments.supervised import CsvSource, ArffSource
 
 # ------------------------------------------------------------------------------------------------ alphabets
 SYM = ['a', ',', 'é', '€', '\n', '\r\n']           # byte-delivery alphabet (1,1,2,3,1,2 bytes)
@@ -46,6 +47,9 @@ SPECS_NOM = [{'kind': 'nominal', 'levels': l} for l in NOM_RELATED]
 CSV_FULL = ['a', '1', '2.5', '-3', 'a b', 'a,b', "it's", 'say "x"', 'back\\slash', '%', '?', '{x}', 'é', None]
 CSV_SMALL = ['a', '1', 'a,b', 'say "x"', "it's", 'a b', None]
 SVM_LABELS = [['1'], ['0'], ['-1'], ['2.5'], ['1', '3'], ['a']]
+XSYM = ['a', 'é', '\n', '\r\n']                   # byte-delivery alphabet used together with ONE of F.LINESEPS
+EXO_LINES = [t.replace('x', x) for x in F.LINESEPS for t in ('x', 'ax', 'xa', 'axa', 'éx€')] + ['', 'a']
+FILE_CELLS = ['a', 'p\u2028q', 'p\u2028,q', 'a b', None]
 SPLIT = 3000          # a group larger than this is split by its leading cells (load balance over 16 shards)
 
 
@@ -154,11 +158,24 @@ class C12(Check):
         for n in range(0, maxlen + 1):
             for prefix in itertools.product(range(6), repeat=min(n, plen)):
                 yield {'part': 'bytes', 'n': n, 'prefix': list(prefix)}
+        # ---- byte delivery of texts holding a line boundary that only str.splitlines knows: chunk-independence
+        for xi in range(len(F.LINESEPS)):
+            for n in range(1, (5 if q else 6) + 1):
+                for prefix in itertools.product(range(5), repeat=min(n, 2)):
+                    yield {'part': 'bytesx', 'x': xi, 'n': n, 'prefix': list(prefix)}
         # ---- DiskSink -> DiskSource
         for nl, ml in ([(0, 0), (1, 2), (2, 2), (3, 1)] if q else [(0, 0), (1, 3), (2, 2), (3, 2)]):
             firsts = [None] if nl == 0 else self._disk_lines(ml)
             for f in firsts:
                 yield {'part': 'disk', 'nlines': nl, 'maxlen': ml, 'first': f}
+        for nl in ((1, 2) if q else (1, 2, 3)):          # lines holding VT FF FS GS RS NEL LS PS (a lone CR cannot be written as part of ONE line)
+            for f in EXO_LINES:
+                if nl < 3 or f not in ('', 'a'): yield {'part': 'disk', 'nlines': nl, 'maxlen': 'exo', 'first': f}
+        # ---- tables with a line-boundary character inside a value, through a file: CsvSource(path) / ArffSource(path)
+        for fmt in ('csv', 'csvh', 'arff', 'arff-sparse'):
+            for gzipped in (False, True):
+                for nrows, ncols in ((1, 1), (1, 2), (2, 1), (2, 2)) + (() if q else ((1, 3), (3, 1))):
+                    yield {'part': 'file', 'fmt': fmt, 'gz': gzipped, 'nrows': nrows, 'ncols': ncols}
         # ---- ARFF common dialect
         for sparse in (False, True):
             for nrows, ncols, specs, alpha in self._arff_shapes(tier):
@@ -274,6 +291,134 @@ class C12(Check):
         acc.count('texts_with_multibyte_or_crlf', nt)
         if nt: acc.mark_nontrivial()
 
+    def _run_bytesx(self, case, acc):
+        x = F.LINESEPS[case['x']]
+        sym = XSYM + [x]
+        n, prefix = case['n'], case['prefix']
+        k = nt = 0
+        for rest in itertools.product(range(5), repeat=n - len(prefix)):
+            idx = list(prefix) + list(rest)
+            if 4 not in idx: continue                      # texts without the character are in the 'bytes' part
+            text = ''.join(sym[i] for i in idx)
+            nt += 1
+            k += self._bytesx_text(text, acc)
+        acc.evaluations += max(k - 1, 0)
+        acc.count('byte_deliveries_linesep', k)
+        acc.count('texts_with_linesep', nt)
+        if nt: acc.mark_nontrivial()
+
+    def _run_bytesx1(self, w, acc):
+        self._bytesx_text(w['text'], acc, only=(w['enc'], w['chunk']))
+
+    def _bytesx_text(self, text, acc, only=None):
+        """Chunk-independence: every chunk size and encoding gives the lines of the single-read delivery (which splitter is used is not demanded)."""
+        raw = text.encode('utf-8')
+        k = 0
+        ref = None
+        for enc, payload in ((None, raw), ('gzip', gz(raw)), ('deflate', deflate(raw))):
+            for chunk in itertools.chain([len(payload) + 1, None], range(1, len(payload) + 1)):
+                if only and ref is not None and (enc, chunk) != tuple(only): continue
+                k += 1
+                wit = {'part': 'bytesx1', 'text': text, 'enc': enc, 'chunk': chunk}
+                order = (0, len(text), len(payload), chunk or 0, case_hash(wit))
+                try:
+                    out = HttpSource._byte_it_(enc, 'utf-8', chunk, BytesIO(payload))
+                    got = out if chunk is None else list(out)
+                except Exception as e:   # noqa
+                    acc.outcome(f'bytes raises {type(e).__name__}')
+                    acc.violation(f'HttpSource._byte_it_|raises {type(e).__name__}|text with a line-boundary character other than LF/CRLF',
+                                  f'text {text!r} enc={enc} chunk={chunk}: {e!r}', wit, order=order)
+                    continue
+                if chunk is None:
+                    if got != text:
+                        acc.violation('HttpSource._byte_it_|whole-body text differs|text with a line-boundary character other than LF/CRLF',
+                                      f'text {text!r} enc={enc}: got {got!r}', wit, order=order)
+                    continue
+                if ref is None: ref = got                   # identity encoding, one read
+                if got == ref:
+                    acc.outcome(('bytesx lines', min(len(ref), 3)))
+                else:
+                    acc.outcome('bytesx chunk-dependent')
+                    acc.violation('HttpSource._byte_it_|lines depend on the chunk size|text with a line-boundary character other than LF/CRLF',
+                                  f'text {text!r} enc={enc} chunk={chunk}: {got!r}, but read in one piece: {ref!r}', wit, order=order)
+        return k
+
+    # -------------------------------------------------------------------------------------------- tables through a file
+    def _file_eval(self, d):
+        fmt, names, rows = d['fmt'], d['names'], d['rows']
+        if fmt.startswith('csv'):
+            lines = F.csv_lines(names, rows, fmt == 'csvh', F.DEFAULT_CSV_V)
+        else:
+            cols = [{'name': n, 'kind': 'string'} for n in names]
+            lines = F.arff_lines(cols, rows, fmt == 'arff-sparse', F.variant())
+        path = self._path(d['gz'])
+        try:
+            data = ''.join(l + '\n' for l in lines).encode('utf-8')
+            with open(path, 'wb') as f: f.write(gz(data) if d['gz'] else data)
+            try:
+                if fmt.startswith('csv'):
+                    got = [(list(r), dict(r.headers) if fmt == 'csvh' else None) for r in CsvSource(path, has_header=(fmt == 'csvh')).read()]
+                    r = F.csv_compare(names, rows, fmt == 'csvh', got)
+                else:
+                    sparse = fmt == 'arff-sparse'
+                    got = []
+                    for row in ArffSource(path).read():
+                        got.append(({k: F._canon(x) for k, x in row.items()}, row.missing, None) if sparse else ([F._canon(x) for x in row], row.missing, dict(row.headers)))
+                    r = F.arff_compare(cols, rows, sparse, got)
+            except Exception as e:   # noqa
+                return ('reject', type(e).__name__, f'{e!r}'[:160] + f' <- {lines}')
+        finally:
+            if os.path.exists(path): os.unlink(path)
+        return None if r is None else ('mismatch', r[0], r[1] + f' <- {lines}')
+
+    @staticmethod
+    def _file_candidates(d):
+        names, rows = d['names'], d['rows']
+        if d['gz']: yield dict(d, gz=False)
+        for i in range(len(rows)): yield dict(d, rows=rows[:i] + rows[i + 1:])
+        if len(names) > 1:
+            for j in range(len(names)): yield dict(d, names=names[:j] + names[j + 1:], rows=[r[:j] + r[j + 1:] for r in rows])
+        for i, r in enumerate(rows):
+            for j in range(len(names)):
+                if r[j] != 'a': yield dict(d, rows=rows[:i] + [r[:j] + ['a'] + r[j + 1:]] + rows[i + 1:])
+
+    def _file_one(self, d, acc, res=None):
+        if res is None: res = self._file_eval(d)
+        if res is None:
+            acc.outcome(d['fmt'] + ' file same table'); return False
+        sig = res[:2]
+        small = shrink(d, self._file_candidates, lambda c: (self._file_eval(c) or (None, None))[:2], sig)
+        mode = ('rejects common dialect: ' + sig[1]) if sig[0] == 'reject' else sig[1]
+        feat = ' + '.join((['.gz'] if small['gz'] else []) + sorted({F.vclass(x) for r in small['rows'] for x in r if F.vclass(x) != 'plain'})) or 'any table'
+        acc.outcome(d['fmt'] + ' file ' + mode)
+        size = (len(small['rows']), len(small['names']), sum(len(x or '') for r in small['rows'] for x in r))
+        acc.violation(f"{small['fmt']} via file source|{mode}|{feat}", self._file_eval(small)[2], dict(small, part='file1'), order=(5,) + size + (case_hash(small),))
+        return True
+
+    def _run_file1(self, w, acc):
+        self._file_one({k: w[k] for k in ('fmt', 'gz', 'names', 'rows')}, acc)
+
+    def _run_file(self, case, acc):
+        nrows, nc = case['nrows'], case['ncols']
+        names = [f'c{j}' for j in range(nc)]
+        k = nt = bad = 0
+        seen = set()
+        for flat in itertools.product(FILE_CELLS, repeat=nrows * nc):
+            rows = [list(flat[i * nc:(i + 1) * nc]) for i in range(nrows)]
+            d = {'fmt': case['fmt'], 'gz': case['gz'], 'names': names, 'rows': rows}
+            k += 1
+            if any(F.vclass(x) == 'line-boundary character' for x in flat): nt += 1
+            res = self._file_eval(d)
+            if res is None:
+                acc.outcome(case['fmt'] + ' file same table'); continue
+            fp = (res[:2], tuple(sorted({(j, F.vclass(r[j])) for r in rows for j in range(nc)})))
+            if fp in seen: bad += 1; continue
+            seen.add(fp)
+            if self._file_one(d, acc, res): bad += 1
+        acc.evaluations += k - 1
+        acc.count('file_tables', k); acc.count('file_tables_with_linesep', nt); acc.count('file_tables_violating', bad)
+        if nt: acc.mark_nontrivial()
+
     def _run_bytes1(self, w, acc):
         raw = w['text'].encode('utf-8')
         payload = raw if not w['enc'] else gz(raw) if w['enc'] == 'gzip' else deflate(raw)
@@ -311,7 +456,7 @@ class C12(Check):
     # -------------------------------------------------------------------------------------------- disk round trip
     def _run_disk(self, case, acc):
         nl, ml = case['nlines'], case['maxlen']
-        lines_alpha = self._disk_lines(ml)
+        lines_alpha = EXO_LINES if ml == 'exo' else self._disk_lines(ml)
         k = 0
         for rest in itertools.product(lines_alpha, repeat=max(nl - 1, 0)):
             lines = ([] if nl == 0 else [case['first']]) + list(rest)
@@ -359,7 +504,7 @@ class C12(Check):
         feat = ', '.join(x for x in ('.gz' if small['gz'] else '', f'batch={small["batch"]}' if small['batch'] else '',
                                      f'write={small["how"]}' if small['how'] != 'list' else '') if x) or 'any configuration'
         lines = small['lines']
-        cls = ('blank at a line end' if any(l != l.strip() for l in lines) else 'multi-byte character' if any(ord(c) > 127 for l in lines for c in l)
+        cls = ('line-boundary character other than LF' if any(c in l for l in lines for c in F.LINESEPS) else 'blank at a line end' if any(l != l.strip() for l in lines) else 'multi-byte character' if any(ord(c) > 127 for l in lines for c in l)
                else 'empty line' if '' in lines else 'any lines')
         acc.violation(f'DiskSink->DiskSource|{res[0]}|{feat}: {cls}', self._disk_eval(small)[1], small,
                       order=(1, len(lines), sum(map(len, lines)), case_hash(small)))
